@@ -11,6 +11,7 @@ import json
 import math
 import random
 import warnings
+import zlib
 from multiprocessing import Pool
 
 import numpy as np
@@ -279,9 +280,13 @@ def run(chk, tier, seed):
     res = tlc.run_model("PhaseTrace.tla", "PhaseTraceHop.cfg")
     chk.add_model(res, expect_violation="SameBranch", label="documented counterexample: overshoot + re-minimise onto another minimum + spinodal test passes")
     cs, tcs = cells(tier, seed)
+    def lost(cell, why):
+        return {"id": "lost_" + hex(zlib.crc32(json.dumps(cell, sort_keys=True, default=str).encode()))[2:], "ev": [{"e": "Lost", "out": "CellLost:" + why}],
+                "cell": dict(cell, symptom="exception:CellLost")}
+
     with Pool(16) as pool:
-        traces = pool.map(run_cell, cs, chunksize=1)
-        traces += pool.map(run_tc, tcs, chunksize=1)
+        traces = limits.map_with_loss(pool, run_cell, cs, lost)
+        traces += limits.map_with_loss(pool, run_tc, tcs, lost)
     for tr in traces:
         chk.count(tr["id"])
     chk.sample(traces[0])
